@@ -44,14 +44,14 @@ func runC08(c *eng.Ctx, thorough bool) {
 	}
 	it := txIface.Underlying().(*types.Interface)
 	known := map[string]string{
-		"inmem.InmemBackendTransaction":             "leaf",
-		"raft.RaftTransaction":                      "leaf",
-		"postgresql.PostgreSQLBackendTransaction":   "leaf",
-		"physical.cacheTransaction":                 "wrapper",
-		"physical.storageEncodingTransaction":       "wrapper",
-		"physical.errorInjectorTransaction":         "wrapper (test fault injection)",
-		"physical.writeNotifierTransaction":         "wrapper",
-		"physical.TransactionalView":                "not a transaction",
+		"inmem.InmemBackendTransaction":           "leaf",
+		"raft.RaftTransaction":                    "leaf",
+		"postgresql.PostgreSQLBackendTransaction": "leaf",
+		"physical.cacheTransaction":               "wrapper",
+		"physical.storageEncodingTransaction":     "wrapper",
+		"physical.errorInjectorTransaction":       "wrapper (test fault injection)",
+		"physical.writeNotifierTransaction":       "wrapper",
+		"physical.TransactionalView":              "not a transaction",
 	}
 	var impls []string
 	for _, pk := range c.P.Pkgs {
@@ -297,7 +297,10 @@ func runC08(c *eng.Ctx, thorough bool) {
 		idx := 1
 		succ := eng.SuccessReturns(f, idx)
 		var rec []ssa.Instruction
-		for _, in := range eng.Instrs(f, func(in ssa.Instruction) bool { mu, ok := in.(*ssa.MapUpdate); return ok && eng.Expr(mu.Map) == "t.reads" }) {
+		for _, in := range eng.Instrs(f, func(in ssa.Instruction) bool {
+			mu, ok := in.(*ssa.MapUpdate)
+			return ok && eng.Expr(mu.Map) == "t.reads"
+		}) {
 			rec = append(rec, in)
 		}
 		blocked := append(eng.CondEdges(f, `^t\.reads\[key\]#1$`, true), eng.CondEdges(f, `^t\.updates\[key\]#1$`, true)...)
@@ -590,7 +593,10 @@ func runC08(c *eng.Ctx, thorough bool) {
 				}
 			}
 			var rng []ssa.Instruction
-			for _, in := range eng.Instrs(f, func(in ssa.Instruction) bool { r, ok := in.(*ssa.Range); return ok && strings.Contains(eng.Expr(r.X), "modified") }) {
+			for _, in := range eng.Instrs(f, func(in ssa.Instruction) bool {
+				r, ok := in.(*ssa.Range)
+				return ok && strings.Contains(eng.Expr(r.X), "modified")
+			}) {
 				rng = append(rng, in)
 			}
 			if len(rng) == 0 {
